@@ -109,7 +109,15 @@ pub fn peer_p1(role: Role, scheme: Option<Scheme>, offset: usize, high: bool, sp
     match scheme {
         Some(s) => {
             sha::prng_fill(fill ^ 0xABCD, &mut p1);
-            p1[4] = 9 | 0x80;
+            // time and version fields vary: zero time, zero version (original-spec look-alike),
+            // Flash-player style versions with a zero or non-zero leading byte, or random
+            match (fill >> 20) % 5 {
+                0 => p1[4..8].copy_from_slice(&[0, 0, 0, 0]),
+                1 => p1[4..8].copy_from_slice(&[0, 9, 124, 2]),
+                2 => p1[4..8].copy_from_slice(&[128, 0, 7, 2]),
+                3 => p1[0..8].copy_from_slice(&[0, 0, 0, 0, 9, 0, 124, 2]),
+                _ => {}
+            }
             let pos = sha::place_digest(&mut p1, role, s, offset, high, spread);
             let mut d = [0u8; 32];
             d.copy_from_slice(&p1[pos..pos + 32]);
@@ -179,6 +187,8 @@ fn eval_answer(c: &AnswerCase) -> Verdict {
                 Scheme::At8 => "peer-digest-pointer-at-8",
                 Scheme::At772 => "peer-digest-pointer-at-772",
             });
+            obs.class_if(p1[4] == 0, "peer-version-field-starts-with-zero");
+            obs.class_if(p1[4..8] == [0, 0, 0, 0], "peer-version-field-all-zero");
         }
         None => {
             vensure!(p2 == &p1[..], "packet 2 in answer to a digest-less packet 1 is not an exact echo (first difference at byte {:?})", p2.iter().zip(p1.iter()).position(|(a, b)| a != b));
